@@ -22,7 +22,9 @@ _THEOREM_NAMES = ["C02_trav_iff_reachable", "C02_exact", "C02_exact_reachable", 
                   "C02_tag_contents_nodup", "C02_opSave_rows_defined", "C02_opSave_exact_objects",
                   "C02_opSave_tag_contents_nodup",
                   # follow-up (wave 5): an object referenced from several places
-                  "C02_defined_exactly_once", "C02_opSave_defined_exactly_once"]
+                  "C02_defined_exactly_once", "C02_opSave_defined_exactly_once",
+                  # follow-up (wave 6): tag contents as (label, value) pairs, no joined text key
+                  "C02_tag_pairs_exact", "C02_tag_pairs_reachable", "C02_opSave_tag_pairs_exact"]
 THEOREMS = [_T + n for n in _THEOREM_NAMES]
 LEVEL_TEXT = ("Lean theorems over the AOEF model (shared with C01): the document `save c` writes is closed under "
               "reference, its identifiers are unique per list, a sequence's parent precedes it, tag ids are dense and "
@@ -251,6 +253,7 @@ def _judge(ctx, rec, rep, loaded):
         twice = sorted({c for c in contents if contents.count(c) > 1})
         if twice:
             out["problems"].append(f"the tag {twice[0]!r} is defined {contents.count(twice[0])} times (one entry per content)")
+        out["tag_pairs"] = sorted({c for c in contents if len(c) == 2})
     # the schema-driven scan of the raw JSON (knows no field name)
     info = _schema().get(data.get("collection_type"))
     if info is not None:
@@ -393,7 +396,16 @@ def _cmp_closure(inp, io, mo):
     the loader reaches the same identifiers in its single pass"""
     if "raise" in io:
         return None
+    mo = dict(mo)
+    want_pairs = mo.pop("tag_pairs", None)          # reachable tag contents as (label, value) tuples
+    want_pairs = None if want_pairs is None else {tuple(p) for p in want_pairs}
     if "unconvertible" not in io:
+        if want_pairs is not None and "tag_pairs" in io:
+            # C02_tag_pairs_exact: the pair itself, never a text joined from it
+            got = {tuple(p) for p in io["tag_pairs"]}
+            if got != want_pairs:
+                return (f"tag: the (label, value) pairs defined differ from the distinct tags reachable (reachable but "
+                        f"not defined: {sorted(want_pairs - got)[:2]}; defined but not reachable: {sorted(got - want_pairs)[:2]})")
         for k, reach in mo.items():
             got = set(io["defs"].get(k, []))
             want = set(reach)
@@ -406,6 +418,12 @@ def _cmp_closure(inp, io, mo):
     if ld is not None and ld.get("raise") != "undumpable":
         if "raise" in ld:
             return f"the library's loader cannot resolve the document it wrote (load raised {ld['raise']})"
+        ld = dict(ld)
+        ld_pairs = ld.pop("tag_pairs", None)
+        if want_pairs is not None and ld_pairs is not None and {tuple(p) for p in ld_pairs} != want_pairs:
+            back = {tuple(p) for p in ld_pairs}
+            return (f"tag: the collection loaded back does not hold the tags that were saved (saved, not loaded: "
+                    f"{sorted(want_pairs - back)[:2]}; loaded, not saved: {sorted(back - want_pairs)[:2]})")
         for k, reach in mo.items():
             if set(ld.get(k, [])) != set(reach):
                 lost = sorted(set(reach) - set(ld.get(k, [])))[:2]
@@ -822,6 +840,13 @@ def _gen_cases(ctx, rng, n_per_type, size=1.0):
                 for _ in range(rng.randint(1, 2)):
                     cj = c02gen.share_in_evaluation(rng, cj) or cj
                 ctx.tally("evaluation: clip evaluations sharing annotations / predictions")
+            if rng.random() < 0.25:
+                # distinct tags whose joined texts coincide (a tag is the pair, not a text built from it)
+                fam = rng.choice(c02gen.colliding_tag_families())[1]
+                hit = c02gen.collide_tags(rng, cj, rng.sample(fam, len(fam)), "random")
+                if hit is not None:
+                    cj = hit
+                    ctx.tally("pool collections with distinct tags of one joined text")
             how = rng.choice(c02gen.HOWS) if rng.random() < 0.5 else "plain"
             cases.append({"collection": cj, "audio_dir": base if (base and rng.random() < 0.5) else None, "how": how,
                           "dir_as": rng.choice(["str", "path"])})
@@ -848,7 +873,11 @@ def _directed(ctx, rng):
     # as built (one Python object per shared object, tags and notes included) and through another construction path
     shr = shr + [dict(c, how=rng.choice(c02gen.HOWS[1:])) for c in shr[::2]]
     other = [dict(c, how=rng.choice(c02gen.HOWS)) for c in pres + seqs]
-    return tree + shr + other + [c02gen.large_case(rng)]
+    # distinct tags whose `label + separator + value` texts coincide, as built and through another construction path
+    col = _wf_filter(ctx, c02gen.colliding_tag_cases(rng))
+    ctx.tally("distinct tags with one joined text (every separator, shifted positions, every collection type)", len(col))
+    col = col + [dict(c, how=rng.choice(c02gen.HOWS[1:])) for c in col[::3]]
+    return tree + shr + other + col + [c02gen.large_case(rng)]
 
 
 def _enough(ctx):
